@@ -9,7 +9,7 @@ use serde_json::{json, Value};
 pub const DEF: PropDef = PropDef {
     id: "C14",
     level: "exploration",
-    rule: "all ordered pairs of the 65-value universe U (every kind and coercion boundary); for each pair ~30 one-line programs are executed on the real interpreter (and the same cells on rrss::exec::val::Val) and only relations between their results are checked (symmetry, negation, converse orderings incl. error<=>error, antisymmetry vs equality, logic vs truthiness, compound assignment vs its expansion (12 operator spellings incl. + - * / x 7 operand forms: variable, literal, pronoun, lists, the target itself), build-k/knock-k round trip for k=1..4); non-trivial = every case (each compares at least two executions); distinct = distinct (law family, a, b)",
+    rule: "all ordered pairs of the 75-value universe U (every kind and coercion boundary); for each pair ~30 one-line programs are executed on the real interpreter (and the same cells on rrss::exec::val::Val) and only relations between their results are checked (symmetry, negation, converse orderings incl. error<=>error, antisymmetry vs equality, logic vs truthiness, compound assignment vs its expansion (12 operator spellings incl. + - * / x 7 operand forms: variable, literal, pronoun, lists, the target itself), build-k/knock-k round trip for k=1..4); non-trivial = every case (each compares at least two executions); distinct = distinct (law family, a, b)",
     assumptions: &["relational oracle: no expected values, so it cannot inherit a table error from the code", "values outside U are not covered"],
     build,
     exhaustive: true,
